@@ -367,10 +367,15 @@ func c01forward(c *Ctx) {
 			continue
 		}
 		ok := false
-		for _, h := range engine.RangeLoopsOver(f, func(s ssa.Value) bool {
-			sl, isSl := s.Type().Underlying().(*types.Slice)
-			return isSl && engine.IsNamed(sl.Elem(), "internal/response", "Response")
-		}) {
+		// the loop may live in a helper of the package that the function calls for every responder
+		var loops []*ssa.BasicBlock
+		for _, g := range c.withPackageHelpers(f, engine.RelPkg(P.OwnPkgPath(f)), 1) {
+			loops = append(loops, engine.RangeLoopsOver(g, func(s ssa.Value) bool {
+				sl, isSl := s.Type().Underlying().(*types.Slice)
+				return isSl && engine.IsNamed(sl.Elem(), "internal/response", "Response")
+			})...)
+		}
+		for _, h := range loops {
 			body := engine.LoopBody(h)
 			for b := range body {
 				for _, in := range b.Instrs {
@@ -724,11 +729,14 @@ func c01expungeIsBarrier(c *Ctx) {
 }
 
 // c01idleStartsEmpty (R01.9): live pushing starts with an empty queue.
-func c01idleStartsEmpty(c *Ctx) {
+func c01idleStartsEmpty(c *Ctx) { c.idleArmedAfterFullFlush("R01.9") }
+
+// idleArmedAfterFullFlush is shared by R01.9 and the IDLE part of R05.4.
+func (c *Ctx) idleArmedAfterFullFlush(rule string) {
 	P, R := c.P, c.R
-	R.Explain("R01.9", "nothing is queued when live pushing starts: every store that arms State.idleCh (a non-nil channel) is dominated by a flush of the responder queue that holds nothing back (flushResponses / a flush-like function with the constant true for permitExpunge) on its nil-error edge.  While idleCh is set, PushResponder applies and announces responders immediately; anything still queued from before - a held-back EXPUNGE and the EXISTS of its re-add - is overtaken by them and later inserted into the middle of the view the client has built.")
+	R.Explain(map[bool]string{true: rule, false: rule + " (IDLE)"}[rule == "R01.9"], "nothing is queued when live pushing starts: every store that arms State.idleCh (a non-nil channel) is dominated by a flush of the responder queue that holds nothing back (flushResponses / a flush-like function with the constant true for permitExpunge) on its nil-error edge.  While idleCh is set, PushResponder applies and announces responders immediately; anything still queued from before - a held-back EXPUNGE and the EXISTS of its re-add - is overtaken by them and later inserted into the middle of the view the client has built.")
 	idleFld := c.fieldOf("internal/state", "State", "idleCh")
-	pf := c.permitFuncs("R01.9")
+	pf := c.permitFuncs(rule)
 	n := 0
 	for _, f := range c.funcsInPkg("internal/state") {
 		for _, b := range f.Blocks {
@@ -783,9 +791,9 @@ func c01idleStartsEmpty(c *Ctx) {
 						}
 					}
 				}
-				R.Check(ok2, "R01.9", c.name(f)+"|arm idleCh", P.Pos(st.Pos()), "dominated by a successful flush with permitExpunge=true", "State.idleCh is armed without a preceding successful flush that holds nothing back: responders still queued are overtaken by the ones pushed live during IDLE")
+				R.Check(ok2, rule, c.name(f)+"|arm idleCh", P.Pos(st.Pos()), "dominated by a successful flush with permitExpunge=true", "State.idleCh is armed without a preceding successful flush that holds nothing back: responders still queued are overtaken by the ones pushed live during IDLE")
 			}
 		}
 	}
-	R.Min("R01.9", "stores arming State.idleCh", n, 1)
+	R.Min(rule, "stores arming State.idleCh", n, 1)
 }
